@@ -65,6 +65,7 @@ type deepCtx struct {
 
 type summary struct {
 	feats   map[string]bool
+	order   []*unit // callees in discovery order
 	callees map[string]bool
 	texts   map[string]string // unit key → text (for the closure hash)
 	inner   []*site           // map ranges inside callees (not syntactically inside the own body)
@@ -364,6 +365,7 @@ func (d *deepCtx) closure(body ast.Node, u *unit, own *ast.RangeStmt) *summary {
 		}
 		// a closure defined inside the own body is part of its text already, but its effects count
 		sum.callees[r.key] = true
+		sum.order = append(sum.order, r)
 		if own == nil || r.node.Pos() < own.Pos() || r.node.End() > own.End() {
 			sum.texts[r.key] = nodeText(d.fset, r.node)
 		}
@@ -611,11 +613,22 @@ func deep(fset *token.FileSet, imp types.Importer, pkgs []*lpkg, sites []site, s
 		s := &sites[i]
 		u := &unit{key: "site", node: s.rs, body: s.rs.Body, decl: s.decl, pk: s.pk}
 		sum := d.closure(s.rs.Body, u, s.rs)
+		// closure hash over alpha-normalised text: locals positional, module callees `@k` in discovery order
+		fnIdx := map[string]string{}
+		for _, cu := range sum.order {
+			if cu.lit == nil {
+				fnIdx[cu.key] = fmt.Sprintf("@%d", len(fnIdx)+1)
+			}
+		}
+		fnName := func(f *types.Func) (string, bool) {
+			nm, ok := fnIdx[funcFullName(f)]
+			return nm, ok
+		}
 		h := sha256.New()
-		h.Write([]byte(nodeText(fset, s.rs)))
-		for _, k := range sortedKeys(sum.callees) {
-			if t, ok := sum.texts[k]; ok {
-				h.Write([]byte("\x00" + k + "\x00" + t))
+		h.Write([]byte(normPrint(fset, s.pk.info, s.rs, scopeOf(s.decl, s.rs), fnName)))
+		for _, cu := range sum.order {
+			if _, ok := sum.texts[cu.key]; ok {
+				h.Write([]byte("\x00" + normPrint(fset, cu.pk.info, cu.node, scopeOf(cu.decl, cu.node), fnName)))
 			}
 		}
 		feats := sum.feats
@@ -643,7 +656,13 @@ func deep(fset *token.FileSet, imp types.Importer, pkgs []*lpkg, sites []site, s
 	// sorted loops
 	b.WriteString("structure SortedSite where\n  file : String\n  fn : String\n  mapExpr : String\n  kinds : List String\n  fx : String\n  inner : List (String × String × String × Nat)\n  reach : Bool\n  deriving DecidableEq, Repr\n\n")
 	b.WriteString("/-- Every `range slices.Sorted(maps.Keys(X))` / `slices.SortedFunc(maps.Keys(X), …)`: what its body does,\ntransitively; `inner` = the unsorted map ranges executed inside (file, function, map expression, ordinal). -/\ndef sortedSites : List SortedSite := [\n")
-	for i, s := range sorted {
+	var sortedLoops []sortedRange
+	for _, s := range sorted {
+		if s.rs != nil { // "collect keys, sort, range" has no loop body of its own here
+			sortedLoops = append(sortedLoops, s)
+		}
+	}
+	for i, s := range sortedLoops {
 		u := &unit{key: "sorted", node: s.rs, body: s.rs.Body, decl: s.decl, pk: s.pk}
 		sum := d.closure(s.rs.Body, u, s.rs)
 		// nested map ranges inside the own body count as inner too
@@ -666,7 +685,7 @@ func deep(fset *token.FileSet, imp types.Importer, pkgs []*lpkg, sites []site, s
 		}
 		sort.Strings(inner)
 		sep := ","
-		if i == len(sorted)-1 {
+		if i == len(sortedLoops)-1 {
 			sep = ""
 		}
 		fmt.Fprintf(&b, "  ⟨%s, %s, %s, %s, %s, [%s], %v⟩%s\n", q(s.file), q(s.fn), q(s.expr), lst(kindsOf(sum.feats)),
@@ -728,8 +747,8 @@ func deep(fset *token.FileSet, imp types.Importer, pkgs []*lpkg, sites []site, s
 
 	// other sources of nondeterminism in the module
 	type srcRow struct {
-		file, fn, kind, text string
-		reach                bool
+		file, fn, kind, text, norm string
+		reach                      bool
 	}
 	var rows []srcRow
 	var nat []string
@@ -768,14 +787,18 @@ func deep(fset *token.FileSet, imp types.Importer, pkgs []*lpkg, sites []site, s
 					return true
 				})
 				add := func(kind string, n ast.Node) {
-					rows = append(rows, srcRow{file, fn, kind, nodeText(fset, n), reach})
+					var sc ast.Node = n
+					if fd != nil {
+						sc = fd
+					}
+					rows = append(rows, srcRow{file, fn, kind, nodeText(fset, n), normPrint(fset, pk.info, n, sc, nil), reach})
 				}
 				ast.Inspect(body, func(n ast.Node) bool {
 					switch n := n.(type) {
 					case *ast.GoStmt:
 						add("go", n.Call.Fun)
 					case *ast.SelectStmt:
-						rows = append(rows, srcRow{file, fn, "select", "select", reach})
+						rows = append(rows, srcRow{file, fn, "select", "select", "select", reach})
 					case *ast.SendStmt:
 						add("chan", n)
 					case *ast.UnaryExpr:
@@ -868,7 +891,7 @@ func deep(fset *token.FileSet, imp types.Importer, pkgs []*lpkg, sites []site, s
 		if i == len(rows)-1 {
 			sep = ""
 		}
-		hs := sha256.Sum256([]byte(r.text))
+		hs := sha256.Sum256([]byte(r.norm))
 		fmt.Fprintf(&b, "  ⟨%s, %s, %s, %s, %s, %v⟩%s\n", q(r.file), q(r.fn), q(r.kind), q(hex.EncodeToString(hs[:8])), q(r.text), r.reach, sep)
 	}
 	b.WriteString("]\n\n")
